@@ -21,8 +21,8 @@ import (
 type CCase struct {
 	Callers   int   `json:"callers"`
 	CallsEach int   `json:"calls_each"`
-	Pipeline  []int `json:"pipeline"`  // per caller: every n-th call is pipelined on the previous answer (0 = never)
-	Cancel    []int `json:"cancel"`    // per caller: every n-th call is cancelled right after it was sent (0 = never)
+	Pipeline  []int `json:"pipeline"`   // per caller: every n-th call is pipelined on the previous answer (0 = never)
+	Cancel    []int `json:"cancel"`     // per caller: every n-th call is cancelled right after it was sent (0 = never)
 	SendYield int   `json:"send_yield"` // the transport yields the processor before every n-th send (0 = never)
 	ExcEvery  int   `json:"exc_every"`  // the peer answers every n-th call with an exception (0 = never)
 }
@@ -279,8 +279,8 @@ func containsStr(s, sub string) bool {
 
 var _ = pbt.Register(pbt.Spec[CCase]{
 	Property: "C06", Name: "concurrent-callers",
-	Rule:     "1-6 application goroutines each make 5-40 calls on the peer's bootstrap capability (some pipelined on their previous answer, some cancelled right after sending), every caller reacting to an answer by calling again; the peer answers every question at once (results echoing the call's number, or an exception); the transport optionally yields the processor before sends. The schedule is whatever the Go scheduler produces. Oracle on the wire history: a question id appears in a new Bootstrap/Call only after the Finish of its previous use, every Finish names an outstanding question, no call is pipelined on a finished question, every question is finished in the end; oracle at the callers: each call resolves with the results the peer sent for that very call. Non-trivial: >= 2 callers and at least one question id used more than once.",
-	Quick:    150, Thorough: 3000,
+	Rule:  "1-6 application goroutines each make 5-40 calls on the peer's bootstrap capability (some pipelined on their previous answer, some cancelled right after sending), every caller reacting to an answer by calling again; the peer answers every question at once (results echoing the call's number, or an exception); the transport optionally yields the processor before sends. The schedule is whatever the Go scheduler produces. Oracle on the wire history: a question id appears in a new Bootstrap/Call only after the Finish of its previous use, every Finish names an outstanding question, no call is pipelined on a finished question, every question is finished in the end; oracle at the callers: each call resolves with the results the peer sent for that very call. Non-trivial: >= 2 callers and at least one question id used more than once.",
+	Quick: 150, Thorough: 3000,
 	Gen: func(t *rapid.T) CCase {
 		c := CCase{Callers: rapid.IntRange(1, 6).Draw(t, "callers"), CallsEach: rapid.IntRange(5, 40).Draw(t, "calls"),
 			SendYield: rapid.SampledFrom([]int{0, 0, 1, 2, 3, 5}).Draw(t, "yield"), ExcEvery: rapid.SampledFrom([]int{0, 0, 2, 3, 7}).Draw(t, "exc")}
